@@ -38,6 +38,21 @@ def respell(rnd, s, hostile):
     return sign + body
 
 
+def map_regions(regs, bed):
+    """Map regions generated for the default 0..60 bed onto another bed (lo, hi)."""
+    lo, hi = bed
+    if (lo, hi) == (0.0, BED):
+        return regs
+    k = (hi - lo) / BED
+    out = []
+    for r in regs:
+        if r[0] == "rect":
+            out.append(["rect", round(lo + r[1] * k, 1), round(lo + r[2] * k, 1), round(lo + r[3] * k, 1), round(lo + r[4] * k, 1), r[5]])
+        else:
+            out.append(["circ", round(lo + r[1] * k, 1), round(lo + r[2] * k, 1), round(r[3] * k, 1), r[4]])
+    return out
+
+
 def gen_regions(rnd, n=None, grid=False):
     regs = []
     if n is None:
@@ -116,9 +131,10 @@ class ProgGen(object):
     def pt(self, inside=None):
         r = self.r
         x = y = 0.0
+        lo, hi = self.f.get("bed", (0.0, BED))
         for _ in range(300):
-            x = round(r.uniform(0, BED), 2)
-            y = round(r.uniform(0, BED), 2)
+            x = round(r.uniform(lo, hi), 2)
+            y = round(r.uniform(lo, hi), 2)
             if r.random() < 0.06:
                 # bed edge: a coordinate of exactly 0 is a legal value, not a missing one
                 if r.random() < 0.5:
@@ -442,7 +458,9 @@ class ProgGen(object):
 
 
 def gen_program(rnd, feats, settings=None, nsteps=None, regions=None):
-    regs = gen_regions(rnd) if regions is None else regions
+    if regions is None and "bed" not in feats and feats.get("beds", False):
+        feats = dict(feats, bed=rnd.choice([(0.0, BED)] * 6 + [(-40.0, 40.0)] * 2 + [(0.0, 250.0), (-150.0, 150.0)]))
+    regs = map_regions(gen_regions(rnd), feats.get("bed", (0.0, BED))) if regions is None else regions
     g = ProgGen(rnd, regs, dict(feats), settings)
     g.emit("G28")
     if rnd.random() < 0.85:
